@@ -25,6 +25,16 @@ CHECKS = {
         "Exploration: for every generated grammar (random, tiny exhaustive, nullable-chain and refused-merge families, overlapping lexicon) all 8 combinations of prefer_shifts x prefer_shifts_over_empty x {LALR,SLR} that construct are run on every token string up to 3-5 tokens: accepted inputs must be sentences and the built tree a derivation; for deterministic tables (no strategy, single-action cells) every sentence must be accepted, have exactly one reference derivation, and GLR must return exactly that one tree.",
         "Trusted: pv/ref_chart.py. Exactness only asserted on the non-overlapping lexicon. LR parsers that do not terminate on cyclic grammars are counted and skipped (C04 claims nothing about termination). Generator health gate: deterministic-class share of constructed parsers must stay >= 10%.",
         "DESIGN.md section 6/C04"),
+    "C08": (
+        "PBT evaluating the stated per-node position/losslessness predicates on every node of every LR tree and GLR forest tree under generated layout (ws and LAYOUT-rule comments), plus instrumented actions recording the positions callbacks receive",
+        "Exploration: for every sentence (all token strings up to 4-5 tokens, rendered with generated layout before, between and after tokens; single-character, multi-character and overlapping lexicons; ws-based and comment LAYOUT grammars) every node of the LR build_tree result and of up to 40-200 forest trees + get_first_tree is checked: integer in-bounds positions, terminal value = input slice, ordered non-overlapping siblings, children inside parents, layout_content+value concatenation reproduces the input, and the positions seen by actions (on the fly and via call_actions) equal the tree's.",
+        "Trusted: pv/ref_chart.py for sentence selection. Known finding D17 (GLR packed node keeps the span of its first alternative) relaxes only the three span-relation predicates on GLR trees and only when the disagreeing region consists of layout characters. LR and GLR placements of empty nodes are not compared with each other.",
+        "DESIGN.md section 6/C08"),
+    "C17": (
+        "differential PBT: GLR/LR with consume_input=False vs union of reference derivations over all sentence prefixes (Earley prefix ends)",
+        "Exploration: every token string up to 4-5 tokens (every sentence followed by every continuation, incl. junk) is parsed with consume_input=False; the set of trees expanded from the GLR forest must equal the union over all sentence prefixes of the reference derivations (each once) and SyntaxError is allowed only when no prefix is a sentence; the LR result must be a derivation of a prefix that is a sentence.",
+        "Trusted: pv/ref_chart.py. Known findings: D10 (lexical_disambiguation=True drops STOP; pinned by the suite) tolerated only for prefixes followed by a token; D1/D2 by their signatures.",
+        "DESIGN.md section 6/C17"),
     "C10": (
         "differential PBT: error type/position/line/column/EOF message/expected set of GLR and LR vs Earley prefix analysis; text, multi-character, list-input and overlapping lexicons",
         "Exploration: every non-sentence among all token strings up to 4-5 tokens (with junk characters, the empty input, multi-line and trailing layout, list inputs with custom recognizers) must be rejected with exactly parglare.SyntaxError at the reference position by GLR (LALR and SLR) and by deterministic LR parsers; line/column must agree with the public pos_to_line_col and a constant column base; the EOF wording, rendering without exceptions and the exact GLR expected-terminal set are checked; LR with resolved conflicts may only raise SyntaxError or a DisambiguationError located at the ambiguous tokens.",
